@@ -5,9 +5,10 @@ pub(crate) fn split_at_point_internal(&self) -> (IBig, IBig, usize)
         B >= 2,
         !(self.repr.significand.v() == 0 && self.repr.exponent != 0),          // finite (all callers assert it)
         self.repr.exponent < 0,                                                  // "assuming the radix point exists" (debug_assert #0)
-        // machine ranges (memory limits; overflow of isize in `exponent + digits` is outside this contract)
-        -0x1000_0000_0000_0000 < self.repr.exponent,
-        ndigits(B as int, self.repr.significand.v()) < 0x1000_0000_0000_0000,
+        // machine ranges: `-exponent` fits isize (overflow of isize is outside this contract), fewer than 2^56 digits
+        // (memory limit; `digits_ub() as isize` does not wrap)
+        isize::MIN < self.repr.exponent,
+        ndigits(B as int, self.repr.significand.v()) < 0x100_0000_0000_0000,
     ensures
         // "(integral part, fractional part, fraction precision)": with p = -exponent the number of fractional digits,
         // significand == hi * B^p + lo, |lo| < B^p, lo == 0 or of the sign of the significand: hi = trunc(x), lo/B^p = fract(x)
@@ -29,6 +30,7 @@ pub(crate) fn split_at_point_internal(&self) -> (IBig, IBig, usize)
         }
 
         let shift = (-self.repr.exponent) as usize;
+        /*@ proof { assert(pos_room(shift as int)); } // resource precondition of split_digits_ref: at most 2*digits + 3 < 2^58 positions @*/
         let (hi, lo) = split_digits_ref::<B>(&self.repr.significand, shift);
         (hi, lo, shift)
     }
